@@ -1,3 +1,141 @@
+(** C13 — a virtual signal behaves like its body at every index, in every visit order.
+    Statements only; proofs in proofs/VirtualProofs.v.
+    Shape: an invariant over every history of reads.  [cache_ok f vs] says every cached value is the
+    value [f] gives to the time point it is stored under; [f ts] is "the body's value at time point
+    ts" — that the body has such a value (depends only on trace signals) is the property's premise
+    and appears as the hypothesis on [eval_args ev body].  One read is sound (T-sound) and keeps the
+    invariant (T-keep) wherever the trace index stands, so by induction no sequence of reads, in
+    any order, is ever served a value computed for another time point; sample-at empties every
+    cache (T-sample), so the invariant survives resampling for the new body values.
+    find/count/whenever over v reduce to reads of v at each visited index (C04).
+    PARTIAL: that a body from the trace-reading fragment has a value determined by the time point
+    (purity of the fragment) is not proved in Coq; the differential check compares v with its body
+    at every index under random visit orders. *)
 From WalModel Require Import Eval.
-Theorem tmp : True. Proof. exact I. Qed.
-Print Assumptions tmp.
+From WalModel.proofs Require Import VirtualProofs.
+Local Open Scope Z_scope.
+
+Section Reads.
+  Variable ev : val -> M val.
+
+  Theorem hit_returns_cached_for_this_timestamp : forall tid name st t vs ts v,
+    vs_at st tid name = Some (t, vs) -> znth (tr_ts t) (tr_index t) = Some ts ->
+    cache_find ts (vs_cache vs) = Some v ->
+    virtual_value ev tid name st = Ok v st.
+  Proof. exact (virtual_hit ev). Qed.
+
+  Theorem miss_evaluates_body_here : forall tid name st t vs ts vals st2 v t2 vs2,
+    vs_at st tid name = Some (t, vs) -> znth (tr_ts t) (tr_index t) = Some ts ->
+    cache_find ts (vs_cache vs) = None ->
+    eval_args ev (vs_body vs) st = Ok vals st2 -> last_opt vals = Some v ->
+    vs_at st2 tid name = Some (t2, vs2) ->
+    virtual_value ev tid name st = Ok v (record_value st2 tid name ts v t2 vs2).
+  Proof. exact (virtual_miss ev). Qed.
+
+  Theorem body_error_is_reported : forall tid name st t vs ts e st2,
+    vs_at st tid name = Some (t, vs) -> znth (tr_ts t) (tr_index t) = Some ts ->
+    cache_find ts (vs_cache vs) = None ->
+    eval_args ev (vs_body vs) st = Er e st2 ->
+    virtual_value ev tid name st = Er e st2.
+  Proof. exact (virtual_miss_error ev). Qed.
+
+  (** T-sound *)
+  Theorem read_serves_value_of_current_time_point : forall (f : Z -> val) tid name st t vs ts v st',
+    vs_at st tid name = Some (t, vs) -> znth (tr_ts t) (tr_index t) = Some ts ->
+    cache_ok f vs ->
+    (forall vals st2, eval_args ev (vs_body vs) st = Ok vals st2 -> last_opt vals = Some (f ts)) ->
+    virtual_value ev tid name st = Ok v st' -> v = f ts.
+  Proof. exact (virtual_value_sound ev). Qed.
+
+  (** T-keep *)
+  Theorem read_keeps_cache_sound : forall (f : Z -> val) tid name st t vs ts v st',
+    vs_at st tid name = Some (t, vs) -> znth (tr_ts t) (tr_index t) = Some ts ->
+    cache_ok f vs ->
+    (forall vals st2, eval_args ev (vs_body vs) st = Ok vals st2 -> last_opt vals = Some (f ts)) ->
+    (forall vals st2 t2 vs2, eval_args ev (vs_body vs) st = Ok vals st2 -> vs_at st2 tid name = Some (t2, vs2) ->
+                             tr_tid t2 = tid /\ cache_ok f vs2) ->
+    virtual_value ev tid name st = Ok v st' ->
+    forall t' vs', vs_at st' tid name = Some (t', vs') -> cache_ok f vs'.
+  Proof. exact (virtual_value_keeps_cache_ok ev). Qed.
+
+  Theorem value_cached_under_current_timestamp : forall tid name st t vs ts vals st2 v t2 vs2,
+    vs_at st tid name = Some (t, vs) -> znth (tr_ts t) (tr_index t) = Some ts ->
+    cache_find ts (vs_cache vs) = None ->
+    eval_args ev (vs_body vs) st = Ok vals st2 -> last_opt vals = Some v ->
+    vs_at st2 tid name = Some (t2, vs2) -> tr_tid t2 = tid ->
+    exists st' t' vs', virtual_value ev tid name st = Ok v st' /\ vs_at st' tid name = Some (t', vs') /\
+                       vs_cache vs' = vs_cache vs2 +++ [(ts, v)] /\ vs_body vs' = vs_body vs2 /\
+                       tr_index t' = tr_index t2 /\ tr_ts t' = tr_ts t2.
+  Proof. exact (cache_keys_unique_step ev). Qed.
+
+  Theorem reading_the_name_evaluates_the_virtual_signal : forall st t name scope,
+    address (st_cont st) name = AOne t name ->
+    0 <= tr_index t <= tr_max t -> smem name special_signals = false -> amem name (tr_virt t) = true ->
+    signal_value_m ev name scope st = virtual_value ev (tr_tid t) name st.
+  Proof. exact (virtual_signal_dispatch ev). Qed.
+End Reads.
+Print Assumptions hit_returns_cached_for_this_timestamp.
+Print Assumptions miss_evaluates_body_here.
+Print Assumptions body_error_is_reported.
+Print Assumptions read_serves_value_of_current_time_point.
+Print Assumptions read_keeps_cache_sound.
+Print Assumptions value_cached_under_current_timestamp.
+Print Assumptions reading_the_name_evaluates_the_virtual_signal.
+
+(** non-vacuity: a sound cache with two entries, hit on the second *)
+Example cache_example : cache_ok (fun ts => VInt (ts * 2)) (mkVsig [] [(0, VInt 0); (5, VInt 10)]) /\
+                        cache_find 5 [(0, VInt 0); (5, VInt 10)] = Some (VInt 10).
+Proof. split; [|reflexivity]. intros ts v [E|[E|[]]]; injection E as <- <-; reflexivity. Qed.
+
+(** T-sample *)
+Theorem sample_at_empties_caches : forall t L t',
+  trace_sample t L = Some t' ->
+  map fst (tr_virt t') = map fst (tr_virt t) /\
+  forall name vs', alookup name (tr_virt t') = Some vs' ->
+                   vs_cache vs' = [] /\ exists vs, alookup name (tr_virt t) = Some vs /\ vs_body vs' = vs_body vs.
+Proof. exact sample_clears_caches. Qed.
+Print Assumptions sample_at_empties_caches.
+
+Theorem cache_sound_after_sample_at : forall f t L t' name vs',
+  trace_sample t L = Some t' -> alookup name (tr_virt t') = Some vs' -> cache_ok f vs'.
+Proof. exact cache_ok_after_sample. Qed.
+Print Assumptions cache_sound_after_sample_at.
+
+(** definition: name relative to the captured scope or group, references fixed at definition *)
+Theorem name_at_top : forall n, defsig_name "" "" n = n.
+Proof. exact defsig_name_top. Qed.
+Print Assumptions name_at_top.
+Theorem name_in_scope : forall cs n, cs <> "" -> defsig_name cs "" n = cs ++ "." ++ n.
+Proof. exact defsig_name_scope. Qed.
+Print Assumptions name_in_scope.
+Theorem name_in_group : forall cs cg n, cg <> "" -> defsig_name cs cg n = cg ++ n.
+Proof. exact defsig_name_group. Qed.
+Print Assumptions name_in_group.
+Theorem scoped_reference_fixed : forall s g n a, defsig_rewrite s g (WL [VOp OResolveScope; VSym n a]) = VSym (s ++ n) None.
+Proof. exact rewrite_scope_ref. Qed.
+Print Assumptions scoped_reference_fixed.
+Theorem grouped_reference_fixed : forall s g n a, defsig_rewrite s g (WL [VOp OResolveGroup; VSym n a]) = VSym (g ++ n) None.
+Proof. exact rewrite_group_ref. Qed.
+Print Assumptions grouped_reference_fixed.
+Theorem rewriting_descends : forall s g o l, o <> OResolveScope -> o <> OResolveGroup ->
+  defsig_rewrite s g (WL (VOp o :: l)) = WL (VOp o :: map (defsig_rewrite s g) l).
+Proof. exact rewrite_descends. Qed.
+Print Assumptions rewriting_descends.
+
+Theorem definition_registers : forall st k t rest cs cg n a b body,
+  c_ntraces (st_cont st) = 1 -> c_traces (st_cont st) = (k, t) :: rest ->
+  read_global "CS" st = Ok (VStr cs) st -> read_global "CG" st = Ok (VStr cg) st ->
+  op_defsig (VSym n a :: b :: body) st =
+  Ok VNone (upd_cont st (with_traces (st_cont st)
+     (aset (tr_tid t) (set_virt t (aset (defsig_name cs cg n)
+                                        (mkVsig (map (defsig_rewrite (defsig_scope cs cg) cg) (b :: body)) [])
+                                        (tr_virt t)))
+           (c_traces (st_cont st))))).
+Proof. exact defsig_registers. Qed.
+Print Assumptions definition_registers.
+
+Theorem defined_signal_is_listed : forall t name vs,
+  let t' := set_virt t (aset name vs (tr_virt t)) in
+  trace_has t' name = true /\ In name (all_signal_names t') /\ alookup name (tr_virt t') = Some vs.
+Proof. exact registered_is_listed. Qed.
+Print Assumptions defined_signal_is_listed.
